@@ -82,6 +82,7 @@ class AbsInt:
         self.module = module
         self.depth = depth
         self.raised: list[ast.Raise] = []
+        self.raised_values: list[Any] = []  # what each of them raises (UNKNOWN when not decided)
         self.undecided: list[ast.AST] = []  # `if` tests that evaluated to UNKNOWN (both branches were followed)
         self.returns: list[Any] = []
 
@@ -119,6 +120,12 @@ class AbsInt:
             if e.attr == '__class__' and isinstance(b, (str, Cls)):
                 return Cls('str' if isinstance(b, str) else 'type', ())
             return UNKNOWN
+        if isinstance(e, ast.Subscript) and isinstance(e.slice, ast.Slice):
+            b = self.ev(e.value, env)
+            lo, hi, stp = (None if x is None else self.ev(x, env) for x in (e.slice.lower, e.slice.upper, e.slice.step))
+            if isinstance(b, (tuple, list, str)) and all(x is None or (isinstance(x, int) and not isinstance(x, bool)) for x in (lo, hi, stp)) and stp != 0:
+                return b[lo:hi:stp]
+            return UNKNOWN
         if isinstance(e, ast.Subscript):
             b = self.ev(e.value, env)
             i = self.ev(e.slice, env)
@@ -135,6 +142,9 @@ class AbsInt:
         if isinstance(e, ast.UnaryOp) and isinstance(e.op, ast.Not):
             t = self.truth(self.ev(e.operand, env))
             return UNKNOWN if t is None else (not t)
+        if isinstance(e, ast.UnaryOp) and isinstance(e.op, ast.USub):
+            v = self.ev(e.operand, env)
+            return -v if isinstance(v, (int, float)) and not isinstance(v, bool) else UNKNOWN
         if isinstance(e, ast.BoolOp):
             last: Any = UNKNOWN
             for v in e.values:
@@ -276,6 +286,26 @@ class AbsInt:
             if name == 'any':
                 return True if any(t is True for t in ts) else (UNKNOWN if any(t is None for t in ts) else False)
             return False if any(t is False for t in ts) else (UNKNOWN if any(t is None for t in ts) else True)
+        if isinstance(f, ast.Attribute) and f.attr in ('items', 'values', 'keys') and not args and not c.keywords:
+            recv = self.ev(f.value, env)
+            if type(recv) is dict:
+                return list(recv.items()) if f.attr == 'items' else list(recv.values()) if f.attr == 'values' else list(recv.keys())
+        if isinstance(f, ast.Attribute) and f.attr == 'popitem' and not args and not c.keywords and isinstance(f.value, ast.Name) and type(env.get(f.value.id)) is dict and env[f.value.id]:
+            d_ = dict(env[f.value.id])
+            item = d_.popitem()  # dict.popitem(): the entry added last
+            env[f.value.id] = d_
+            return item
+        if name == 'next' and len(c.args) == 1 and isinstance(c.args[0], ast.Call) and isinstance(c.args[0].func, ast.Name) and c.args[0].func.id == 'iter' and len(c.args[0].args) == 1:
+            seq = self.ev(c.args[0].args[0], env)  # next(iter(X)): the first element of X
+            if type(seq) is dict:
+                seq = list(seq.keys())
+            if isinstance(seq, (list, tuple)) and seq:
+                return seq[0]
+            return UNKNOWN
+        if name == 'cast' and len(args) == 2 and not c.keywords:
+            return args[1]
+        if name in ('list', 'tuple') and len(args) == 1 and not c.keywords and type(args[0]) is dict:
+            return list(args[0].keys()) if name == 'list' else tuple(args[0].keys())
         if name in ('list', 'tuple') and len(args) == 1 and not c.keywords and isinstance(args[0], (list, tuple)):
             return list(args[0]) if name == 'list' else tuple(args[0])
         if name == 'len' and len(args) == 1 and not c.keywords and isinstance(args[0], (list, tuple, str, set)) and all(x is not UNKNOWN for x in (args[0] if not isinstance(args[0], str) else ())):
@@ -433,7 +463,22 @@ class AbsInt:
                 return None
             elif isinstance(st, ast.Raise):
                 self.raised.append(st)
+                self.raised_values.append(self.ev(st.exc, env) if st.exc is not None else UNKNOWN)
                 return None
+            elif isinstance(st, ast.For) and not st.orelse and isinstance(self.ev(st.iter, env), (list, tuple)) and len(self.ev(st.iter, env)) <= 8 \
+                    and not any(isinstance(x, (ast.Break, ast.Continue)) for x in ast.walk(st)) and isinstance(st.target, (ast.Name, ast.Tuple)):
+                # a loop over a known, short sequence: one pass of the body per element
+                for x in list(self.ev(st.iter, env)):
+                    if isinstance(st.target, ast.Name):
+                        env[st.target.id] = x
+                    else:
+                        for i, tt in enumerate(st.target.elts):
+                            if isinstance(tt, ast.Name):
+                                env[tt.id] = x[i] if isinstance(x, tuple) and i < len(x) else UNKNOWN
+                    r = self.run(st.body, env)
+                    if r is None:
+                        return None
+                    env = r
             elif isinstance(st, (ast.For, ast.AsyncFor, ast.While)):
                 for n in ast.walk(st):
                     if isinstance(n, ast.Name) and isinstance(n.ctx, ast.Store):
